@@ -131,17 +131,21 @@ func (f *fprinter) body(level int, nodes []Node) {
 func (f *fprinter) node(n Node, level int) {
 	switch n.K {
 	case "text":
-		v := WordText(n.W)
+		v := WordSource(n.W)
 		if n.Sp || n.Tr == "h" {
 			v += " "
 		}
 		f.indent(level, v)
 	case "expr":
+		call := "env.E(" + num(n.E) + ")"
+		if n.E == "E3" {
+			call = "env.EE(3)"
+		}
 		if f.src == 2 {
 			// the formatter keeps the padding in front of a string expression (only the tail is trimmed)
-			f.indent(level, "{   env.E(", num(n.E), ") }")
+			f.indent(level, "{   ", call, " }")
 		} else {
-			f.indent(level, "{ env.E(", num(n.E), ") }")
+			f.indent(level, "{ ", call, " }")
 		}
 	case "void":
 		cl := f.openTag(n, level)
